@@ -76,6 +76,9 @@ fn main() {
     let sc = scripts(quick);
     let modes = [Mode::Eager, Mode::Burst, Mode::SlowRead];
     let cfgs = grid(&sc, &[8, 16, 4096], &[2, 3, 64], &modes, &[0, 5]);
+    let mut small = asys::grid::with_small_lane_buf(&cfgs);
+    small.extend(cfgs);
+    let cfgs = small;
     run_grid(&ctx, GridSpec { name: "as-nocoalesce-grid-d1".into(), cfgs, bound: 1, max_exec_per_cfg: 20_000, wall_cap_s: if quick { 25.0 } else { 900.0 } });
     let core: Vec<_> = sc.iter().filter(|(s, _)| s.len() <= 4).cloned().collect();
     let cfgs = grid(&core, &[8], &[2, 64], &[Mode::Eager, Mode::SlowRead], &[0, 5]);
